@@ -32,9 +32,10 @@ class HarnessError(Exception):
 class Obs:
     """Outcome of one executed case."""
 
-    __slots__ = ("fails", "nt", "cls", "n")
+    __slots__ = ("fails", "nt", "cls", "n", "nt_enum")
 
-    def __init__(self, fails=None, nt=None, cls=(), n=1):
+    def __init__(self, fails=None, nt=None, cls=(), n=1, nt_enum=0):
+        self.nt_enum = nt_enum  # non-trivial cases inside a batch, distinct by construction (enumeration without repeats)
         self.fails = fails or []  # list of (bucket, message)
         self.nt = nt  # hashable fingerprint when the case is non-trivial else None
         self.cls = cls  # class labels for the histogram
@@ -88,6 +89,7 @@ class Collector:
         self.evaluations = 0
         self.nt = set()
         self.nt_overflow = 0
+        self.nt_enum = 0
         self.hist = Counter()
         self.samples = []
         self.last_sample = None
@@ -102,6 +104,7 @@ class Collector:
     # -- bookkeeping ---------------------------------------------------
     def add(self, case, obs):
         self.evaluations += obs.n
+        self.nt_enum += obs.nt_enum
         if obs.nt is not None:
             if len(self.nt) < MAX_NT:
                 self.nt.add(obs.nt)
@@ -154,6 +157,7 @@ class Collector:
             "evaluations": self.evaluations,
             "nt": self.nt,
             "nt_overflow": self.nt_overflow,
+            "nt_enum": self.nt_enum,
             "hist": self.hist,
             "samples": self.samples,
             "last": codec.jsonable(self.last_sample) if self.last_sample is not None else None,
@@ -327,6 +331,7 @@ def merge(results):
         "evaluations": 0,
         "nt": set(),
         "nt_overflow": 0,
+        "nt_enum": 0,
         "hist": Counter(),
         "samples": [],
         "fails": {},
@@ -340,6 +345,7 @@ def merge(results):
         m["evaluations"] += r["evaluations"]
         m["nt"] |= r["nt"]
         m["nt_overflow"] += r["nt_overflow"]
+        m["nt_enum"] += r["nt_enum"]
         m["hist"].update(r["hist"])
         m["excluded"].update(r["excluded"])
         for s in r["samples"][:3]:
@@ -398,7 +404,7 @@ def finish(mod, tier, seed, results, wall):
         lines.append(f"  bucket={bucket} hits={f['count'] + m['excluded'].get(bucket, 0)} :: {f['msg'][:300]}")
         viol.append({"bucket": bucket, "replay": path, "message": f["msg"][:300]})
         rc = 1
-    nt = len(m["nt"])
+    nt = len(m["nt"]) + m["nt_enum"]
     ev = {
         "property_id": prop,
         "tier": tier,
@@ -422,6 +428,7 @@ def finish(mod, tier, seed, results, wall):
             "excluded_after_first_hit": dict(m["excluded"]),
             "violation_buckets": viol,
             "nontrivial_fingerprints_beyond_cap": m["nt_overflow"],
+            "nontrivial_counted_inside_enumerated_batches": m["nt_enum"],
         },
         "assumptions": list(getattr(mod, "ASSUMPTIONS", [])),
         "wall_s": round(wall, 2),
